@@ -372,6 +372,8 @@ pub fn expr_body(b: &syn::Block) -> Option<syn::Expr> {
             },
             syn::Stmt::Expr(e, None) if k + 1 == n => return Some(env.resolve(e)),
             syn::Stmt::Expr(syn::Expr::Return(r), _) if k + 1 == n => return r.expr.as_ref().map(|e| env.resolve(e)),
+            // a local `const NAME: T = E;` stays a name (the callers resolve named constants of the whole file)
+            syn::Stmt::Item(syn::Item::Const(_)) => {}
             _ => return None,
         }
     }
